@@ -100,7 +100,7 @@ def run(ctx):
     # ---------------------------------------------------------------- C17.OFFSET
     po = prog.method(tzical.qualname, "_parse_offset", "C17.OFFSET")
     n_s = unit.check_function(ctx, "C17.OFFSET", po)
-    ctx.floor("C17.OFFSET", n_s, 2, "offset decoders")
+    ctx.stat("C17.OFFSET.unit_sites", n_s)      # the decoder is decided as a whole by the table below
     from .. import summ
     summ.check_ref(ctx, "C17.OFFSET", po, "'+' maps to +1, '-' to -1, no sign to +1; the sign character is removed before the digits are cut; only HHMM and HHMMSS are "
                    "accepted (3600, 60, 1 with the sign on every term); an empty or other-length offset raises ValueError", """
